@@ -52,7 +52,11 @@ impl<'a, T> Iterator for Iter<'a, T> {
     type Item = &'a T;
 
     fn next(&mut self) -> Option<Self::Item> {
-        self.impl_next_rec(self.view.dimensions() - 1)
+        if self.index >= self.view.shape.elements() {
+            return None;
+        }
+
+        self.impl_next_rec(self.view.dimensions().saturating_sub(1))
     }
 
     fn size_hint(&self) -> (usize, Option<usize>) {
